@@ -214,6 +214,7 @@ def main (args : List String) : IO Unit :=
   | ["utils"] => do utils; utils2
   | ["io"] => ioProbes
   | ["base"] => baseProbes
+  | ["ls"] => pure ()      -- (a specification, not a function: the C02 correspondence and oracle search the implementation)
   | ["blocks"] => pure ()      -- (pandas contract: no probe lattice; the C09 correspondence and oracle search the implementation)
   | ["grid"] => pure ()      -- (abstract container: no probe lattice; the C18 correspondence and oracle search the implementation)
   | ["neighbors"] => pure ()      -- (abstract tree: no probe lattice; the C15 correspondence and oracle search the implementation)
